@@ -568,6 +568,9 @@ type SynAckSpec struct {
 	LateCopyMs   int    `json:"late_copy_ms,omitempty"`   // one more copy of the genuine SYN-ACK this long after the first (a retransmission seen during the probe phase)
 	FloodCount   int    `json:"flood_count,omitempty"`    // SYN-ACKs of other connections to the same target, ...
 	FloodEveryMs int    `json:"flood_every_ms,omitempty"` // ... this far apart, starting when the connection is accepted
+	// Greeting: a data segment of the accepted connection (PSH|ACK, the server's banner) is on the wire at DelayNs, the
+	// SYN-ACK (if Enabled) 2 ms behind it: what a capture handle without a working SYN-ACK filter sees first
+	Greeting bool `json:"greeting,omitempty"`
 }
 
 type Listener struct {
@@ -642,11 +645,17 @@ func (l *Listener) poll(n *Net) {
 			other := netip.AddrPortFrom(client.Addr(), client.Port()+uint16(1+k%50))
 			n.Schedule(Reply{DelayNs: int64(k+1) * int64(l.Spec.FloodEveryMs) * 1_000_000, Raw: mk0(other), Meta: Meta{ToTTL: -1, Tag: "synack-flood", From: l.Addr.Addr(), Flow: -1}})
 		}
+		connIdx := uint32(len(l.Accepted) - 1)
+		isn, ackNum := l.Spec.ISN+connIdx*0x01000000, l.Spec.AckNum+connIdx*0x00100000 // every connection has its own sequence space
+		behindGreeting := int64(0)
+		if l.Spec.Greeting {
+			t := refcodec.TCP(l.Addr.Addr(), client.Addr(), l.Addr.Port(), client.Port(), isn+1, ackNum, refcodec.PSH|refcodec.ACK, 509, nil, []byte("220 ready\r\n"))
+			n.Schedule(Reply{DelayNs: l.Spec.DelayNs, Raw: refcodec.Wrap(l.Addr.Addr(), client.Addr(), refcodec.ProtoTCP, 64, 0x1111, t), Meta: Meta{ToTTL: -1, Tag: "server-greeting", From: l.Addr.Addr(), Flow: -1}})
+			behindGreeting = 2_000_000
+		}
 		if !l.Spec.Enabled {
 			continue
 		}
-		connIdx := uint32(len(l.Accepted) - 1)
-		isn, ackNum := l.Spec.ISN+connIdx*0x01000000, l.Spec.AckNum+connIdx*0x00100000 // every connection has its own sequence space
 		if l.ConnAck == nil {
 			l.ConnAck = map[uint16]uint32{}
 		}
@@ -704,7 +713,7 @@ func (l *Listener) poll(n *Net) {
 			copies = 1
 		}
 		for i := 0; i < copies; i++ {
-			n.Schedule(Reply{DelayNs: l.Spec.DelayNs, Raw: mk(l.Addr, client), Meta: Meta{ToTTL: -1, Tag: "handshake-synack", From: l.Addr.Addr(), Flow: -1, Genuine: true}})
+			n.Schedule(Reply{DelayNs: l.Spec.DelayNs + behindGreeting, Raw: mk(l.Addr, client), Meta: Meta{ToTTL: -1, Tag: "handshake-synack", From: l.Addr.Addr(), Flow: -1, Genuine: true}})
 		}
 		if l.Spec.LateCopyMs > 0 {
 			n.Schedule(Reply{DelayNs: l.Spec.DelayNs + int64(l.Spec.LateCopyMs)*1_000_000, Raw: mk(l.Addr, client), Meta: Meta{ToTTL: -1, Tag: "handshake-synack-retransmitted", From: l.Addr.Addr(), Flow: -1}})
